@@ -104,6 +104,8 @@ type genProfile struct {
 	pSysEntity  int
 	pBatch      int // percent of transactions run through Db.Batch
 	pLongKey    int // percent of plain field values replaced by a 33000-byte string (bbolt: key too large)
+	pSharedCtx  int // percent of histories whose transactions all run with one shared mutate context ("@ctx")
+	pRecreate   int // percent of transactions that delete an entity, re-create its id and (mostly) delete it again
 	endInDelete bool
 }
 
@@ -114,7 +116,7 @@ var hostileIds = []string{`x" or id != "`, `a\`, `or`, `b c`, `"`, `not`, `a=b`,
 
 func profileFor(name string) *genProfile {
 	p := &genProfile{name: name, wirings: allWirings, ids: plainIds, vals: []string{"v1", "v2", "v3", "", "v4", "v5", "v6", "v7", "v8"},
-		maxTx: 7, maxOps: 3, pFail: 6, pPreCommit: 4, pVeto: 6, pSys: 25, pSysEntity: 20}
+		maxTx: 7, maxOps: 3, pFail: 6, pPreCommit: 4, pVeto: 6, pSys: 25, pSysEntity: 20, pSharedCtx: 20, pRecreate: 8}
 	switch name {
 	case "c03":
 		p.wirings = []string{"idx", "casc"}
@@ -143,6 +145,7 @@ type histGen struct {
 	alive  map[string]map[string]bool
 	ids    []string
 	curSys bool // the transaction being generated runs in a system context
+	ctxMode int // 0 = not drawn yet, 1 = every transaction of the history shares one mutate context, 2 = fresh contexts
 }
 
 func (g *histGen) pickId() string { return g.ids[g.r.intn(len(g.ids))] }
@@ -356,9 +359,37 @@ func (g *histGen) genOp() hOp {
 func (g *histGen) genTx() hTx {
 	t := hTx{Sys: g.r.chance(g.p.pSys), PreCommitErr: g.r.chance(g.p.pPreCommit)}
 	g.curSys = t.Sys
+	if g.ctxMode == 0 {
+		g.ctxMode = 2
+		if g.p.pSharedCtx > 0 && g.r.chance(g.p.pSharedCtx) {
+			g.ctxMode = 1
+		}
+	}
+	if g.ctxMode == 1 {
+		// pre-commit actions stay registered on a context for good: not combined with a shared one
+		t.PreCommitErr = false
+		t.Vetoes = append(t.Vetoes, hVeto{Store: "@ctx", Change: "C", Id: ""})
+	}
 	n := 1 + g.r.intn(g.p.maxOps)
 	for i := 0; i < n; i++ {
 		t.Ops = append(t.Ops, g.genOp())
+	}
+	if g.p.pRecreate > 0 && g.r.chance(g.p.pRecreate) {
+		// delete - re-create - delete of one id inside the transaction (the second delete must do all the work again)
+		st := g.w.Stores[g.r.intn(len(g.w.Stores))]
+		if alive := g.aliveIds(st.Name); len(alive) > 0 {
+			id := alive[g.r.intn(len(alive))]
+			g.markDeleted(st.Name, id)
+			t.Ops = append(t.Ops, hOp{Kind: "D", Store: st.Name, Id: id})
+			saved := g.ids
+			g.ids = []string{id}
+			t.Ops = append(t.Ops, g.genCreate(st))
+			g.ids = saved
+			if g.r.chance(70) {
+				g.markDeleted(st.Name, id)
+				t.Ops = append(t.Ops, hOp{Kind: "D", Store: st.Name, Id: id})
+			}
+		}
 	}
 	if g.r.chance(g.p.pFail) {
 		pos := g.r.intn(len(t.Ops) + 1)
